@@ -10,6 +10,7 @@ import (
 	"github.com/internetarchive/Zeno/internal/pkg/controler/pause"
 	"github.com/internetarchive/Zeno/internal/pkg/log"
 	"github.com/internetarchive/Zeno/internal/pkg/stats"
+	"github.com/internetarchive/Zeno/internal/pkg/verifhook"
 	"github.com/internetarchive/Zeno/pkg/models"
 )
 
@@ -88,14 +89,18 @@ func (p *postprocessor) worker(workerID string) {
 	for {
 		select {
 		case <-p.ctx.Done():
+			verifhook.Obs("post.exit", workerID)
 			logger.Debug("shutting down")
 			return
 		case <-controlChans.PauseCh:
+			verifhook.At("post.pause.ack", workerID)
 			logger.Debug("received pause event")
 			controlChans.ResumeCh <- struct{}{}
+			verifhook.At("post.resumed", workerID)
 			logger.Debug("received resume event")
 		case seed, ok := <-p.inputCh:
 			if ok {
+				verifhook.At("post.recv", seed)
 				logger.Debug("received seed", "seed", seed.GetShortID())
 
 				if err := seed.CheckConsistency(); err != nil {
@@ -107,6 +112,7 @@ func (p *postprocessor) worker(workerID string) {
 				} else {
 					outlinks := postprocess(workerID, seed)
 					for i := range outlinks {
+						verifhook.At("post.outlink", outlinks[i], seed)
 						select {
 						case <-p.ctx.Done():
 							logger.Debug("aborting outlink feeding due to stop", "seed", outlinks[i].GetShortID())
@@ -118,12 +124,15 @@ func (p *postprocessor) worker(workerID string) {
 				}
 
 				closeBodies(seed)
+				verifhook.At("post.send", seed)
 
 				select {
 				case <-p.ctx.Done():
+					verifhook.Obs("post.abort", seed)
 					logger.Debug("aborting seed due to stop", "seed", seed.GetShortID())
 					return
 				case p.outputCh <- seed:
+					verifhook.Obs("post.sent", seed)
 				}
 			}
 		}
